@@ -213,4 +213,74 @@ def gibbsCallF {σ : Type} (steps : σ → Prog α σ) (fresh : Nat) (overwrite 
     Prog α (CallResult σ) :=
   gibbsCall steps fresh overwrite.truthy init
 
+/-! ### the public one-step samplers with their `out=` buffer (extension round 2) -/
+
+/-- what the caller can observe after `sample_…(x, out=out)`: the returned tensor and the caller's `out` object
+(`none` when no `out` was passed) after the call -/
+structure StepResult (σ : Type) where
+  result : Buf σ
+  out : Option (Buf σ)
+
+/-- body shared by the five public one-step samplers (binary_rbm.py:170-198 `sample_v_given_h`, `sample_h_given_v`;
+purification_rbm.py:261-307 `sample_a_given_v`, `sample_h_given_v`, `sample_v_given_ha`), AS WRITTEN:
+```
+p = self.prob_…(x, out=out)        # probabilities; written INTO `out` when given (the object `out` is returned), else a new tensor
+p = torch.bernoulli(p, out=out)    # draws; written INTO `out` when given (overwriting the probabilities), else another new tensor
+return p
+```
+`probs` = the vector of conditional probabilities the `prob_…` method computes; `fresh`, `fresh+1` unused object ids. -/
+def sampleCall {m : Nat} (probs : Fin m → α) (fresh : Nat) (out : Option (Buf (Fin m → α))) :
+    Prog α (StepResult (Fin m → α)) :=
+  -- line 1: the tensor object holding the probabilities
+  let p : Buf (Fin m → α) := match out with
+    | some o => { o with data := probs }
+    | none => ⟨fresh, true, probs⟩
+  -- line 2: `torch.bernoulli(p, out=out)` presents the CONTENTS of `p` to the sampler
+  (flipVec m p.data).map fun t =>
+    match out with
+    | some _ => let o' : Buf (Fin m → α) := { p with data := bvec t }; ⟨o', some o'⟩
+    | none => ⟨⟨fresh + 1, true, bvec t⟩, none⟩
+
+namespace RBM
+variable {n h : Nat}
+/-- `BinaryRBM.sample_h_given_v(v, out=None)` (binary_rbm.py:185-198) -/
+def sampleH (r : RBM α n h) (v : Fin n → α) (fresh : Nat) (out : Option (Buf (Fin h → α))) :=
+  sampleCall (r.probH v) fresh out
+/-- `BinaryRBM.sample_v_given_h(h, out=None)` (binary_rbm.py:170-183) -/
+def sampleV (r : RBM α n h) (hid : Fin h → α) (fresh : Nat) (out : Option (Buf (Fin n → α))) :=
+  sampleCall (r.probV hid) fresh out
+
+/-- loop body of `BinaryRBM.gibbs_steps` (binary_rbm.py:223-225) on the buffer OBJECTS `h`, `v`:
+`self.sample_h_given_v(v, out=h)`; `self.sample_v_given_h(h, out=v)` — the return values are discarded, the second call
+reads whatever the first one left IN THE BUFFER `h`. Result: the two buffers after the pass. -/
+def gibbsStepBuf (r : RBM α n h) (fresh : Nat) (hb : Buf (Fin h → α)) (vb : Buf (Fin n → α)) :
+    Prog α (Buf (Fin h → α) × Buf (Fin n → α)) :=
+  (r.sampleH vb.data fresh (some hb)).bind fun rh =>
+    let hb' := rh.out.getD hb
+    (r.sampleV hb'.data fresh (some vb)).map fun rv => (hb', rv.out.getD vb)
+end RBM
+
+namespace PRBM
+variable {n h a : Nat}
+/-- `PurificationRBM.sample_h_given_v(v, out=None)` (purification_rbm.py:276-289) -/
+def sampleH (r : PRBM α n h a) (v : Fin n → α) (fresh : Nat) (out : Option (Buf (Fin h → α))) :=
+  sampleCall (r.probH v) fresh out
+/-- `PurificationRBM.sample_a_given_v(v, out=None)` (purification_rbm.py:261-274) -/
+def sampleA (r : PRBM α n h a) (v : Fin n → α) (fresh : Nat) (out : Option (Buf (Fin a → α))) :=
+  sampleCall (r.probA v) fresh out
+/-- `PurificationRBM.sample_v_given_ha(h, a, out=None)` (purification_rbm.py:291-307) -/
+def sampleV (r : PRBM α n h a) (hid : Fin h → α) (aux : Fin a → α) (fresh : Nat) (out : Option (Buf (Fin n → α))) :=
+  sampleCall (r.probV hid aux) fresh out
+
+/-- loop body of `PurificationRBM.gibbs_steps` (purification_rbm.py:333-336) on the buffer objects `h`, `a`, `v`:
+`sample_h_given_v(v, out=h)`; `sample_a_given_v(v, out=a)`; `sample_v_given_ha(h, a, out=v)` — return values discarded. -/
+def gibbsStepBuf (r : PRBM α n h a) (fresh : Nat) (hb : Buf (Fin h → α)) (ab : Buf (Fin a → α)) (vb : Buf (Fin n → α)) :
+    Prog α (Buf (Fin h → α) × Buf (Fin a → α) × Buf (Fin n → α)) :=
+  (r.sampleH vb.data fresh (some hb)).bind fun rh =>
+    let hb' := rh.out.getD hb
+    (r.sampleA vb.data fresh (some ab)).bind fun ra =>
+      let ab' := ra.out.getD ab
+      (r.sampleV hb'.data ab'.data fresh (some vb)).map fun rv => (hb', ab', rv.out.getD vb)
+end PRBM
+
 end QV
